@@ -49,6 +49,7 @@ type Frame struct {
 	ctx     *FuncCtx
 	callPos token.Pos
 	callOrd map[string]int // occurrences of callee keys seen on this path (for `at` assertions)
+	callRes map[string][]Value
 }
 
 // FuncCtx is the function under verification.
@@ -479,7 +480,7 @@ func (x *Exec) frameAllowed(fc *FuncCtx, key string) bool {
 
 func (x *Exec) newFrame(fn *ssa.Function, parent *Frame) *Frame {
 	x.frameSeq++
-	fr := &Frame{fn: fn, env: map[ssa.Value]Value{}, cellOf: map[*ssa.Alloc]int{}, parent: parent, id: x.frameSeq, callOrd: map[string]int{}}
+	fr := &Frame{fn: fn, env: map[ssa.Value]Value{}, cellOf: map[*ssa.Alloc]int{}, parent: parent, id: x.frameSeq, callOrd: map[string]int{}, callRes: map[string][]Value{}}
 	if parent != nil {
 		fr.depth = parent.depth + 1
 		fr.ctx = parent.ctx
@@ -567,6 +568,14 @@ func (x *Exec) funcID(fn *ssa.Function) Term {
 }
 
 func (x *Exec) constValue(c *ssa.Const) Value {
+	v := x.constValue0(c)
+	if p, ok := v.(*Prim); ok && p.Typ == nil {
+		p.Typ = c.Type()
+	}
+	return v
+}
+
+func (x *Exec) constValue0(c *ssa.Const) Value {
 	t := c.Type()
 	if c.Value == nil {
 		// zero value / nil
